@@ -1227,6 +1227,7 @@ func (x *Exec) doReturn(st *State, v *ssa.Return) bool {
 	if st.dry != nil {
 		return false
 	}
+	x.userAsserts(st, fr, callName{"@return", 1}, false)
 	x.atReturn(st, fr, res, v)
 	return false
 }
